@@ -263,8 +263,41 @@ func (ss *Sorts) structInfoOf(t types.Type) *structInfo {
 }
 
 // typeTag returns the integer tag (>0) standing for a dynamic type.
+// tagKey is normType except that parameter and result names of func types are dropped
+// (func(ctx T) and func(T) are the same Go type).
+func tagKey(t types.Type) string {
+	switch u := t.(type) {
+	case *types.Signature:
+		tup := func(tp *types.Tuple, variadic bool) string {
+			var xs []string
+			for i := 0; i < tp.Len(); i++ {
+				x := tagKey(tp.At(i).Type())
+				if variadic && i == tp.Len()-1 {
+					x = "..." + strings.TrimPrefix(x, "[]")
+				}
+				xs = append(xs, x)
+			}
+			return strings.Join(xs, ", ")
+		}
+		r := ""
+		switch u.Results().Len() {
+		case 0:
+		case 1:
+			r = " " + tup(u.Results(), false)
+		default:
+			r = " (" + tup(u.Results(), false) + ")"
+		}
+		return "func(" + tup(u.Params(), u.Variadic()) + ")" + r
+	case *types.Pointer:
+		return "*" + tagKey(u.Elem())
+	case *types.Slice:
+		return "[]" + tagKey(u.Elem())
+	}
+	return normType(t)
+}
+
 func (ss *Sorts) typeTag(t types.Type) int {
-	k := normType(t)
+	k := tagKey(t)
 	if n, ok := ss.tags[k]; ok {
 		return n
 	}
